@@ -911,3 +911,40 @@ func anyReachable(fn *ssa.Function, targets []*ssa.Return, cut edgeSet) *ssa.Ret
 	}
 	return nil
 }
+
+// sameIndexAddr: go/ssa performs no CSE, so `a[i] op= x` yields two IndexAddr
+// instructions over the same base and index operands.
+func sameIndexAddr(v ssa.Value, ia *ssa.IndexAddr) bool {
+	if v == ssa.Value(ia) {
+		return true
+	}
+	o, ok := v.(*ssa.IndexAddr)
+	if !ok {
+		return false
+	}
+	if o.Index != ia.Index {
+		a, oka := constInt(o.Index)
+		b, okb := constInt(ia.Index)
+		if !oka || !okb || a != b {
+			return false
+		}
+	}
+	return o.X == ia.X || accessPath(o.X) != "" && accessPath(o.X) == accessPath(ia.X)
+}
+
+// isParamVal: v is parameter i of f, or a load of the local cell the
+// parameter was spilled to because a closure captures it.
+func isParamVal(v ssa.Value, f *ssa.Function, i int) bool {
+	if i >= len(f.Params) {
+		return false
+	}
+	if v == ssa.Value(f.Params[i]) {
+		return true
+	}
+	if u, ok := v.(*ssa.UnOp); ok && u.Op == token.MUL {
+		if al, ok := u.X.(*ssa.Alloc); ok && al.Comment == f.Params[i].Name() {
+			return true
+		}
+	}
+	return false
+}
